@@ -421,4 +421,45 @@ def narCachedIndex (keyHasBoth : Bool) (hist : List (Nat × Nat)) (B S : Nat) : 
 def narLogitsRow {H : Type} (heat : Nat → Nat → H) (indexer : List Nat) (cur : Nat → Nat) (r : Nat) : H :=
   heat (indexer.getD r 0) (cur r)
 
+
+/-! ### padding-locality of masked attention (round 6)
+
+Instances with different numbers of operations are zero-padded to a common width; an attention layer must give a real row the
+same output whatever the number and content of the padded (masked) columns.  Attention is kept division-free: numerator
+`Σ_m weight_m · value_m` and denominator `Σ_m weight_m`, `weight_m = ex(score_m)` (`ex` the exponential, uninterpreted). -/
+
+section padding
+open Lean.Grind (CommRing)
+variable {α : Type} [CommRing α]
+
+/-- masked softmax attention (mask BEFORE the softmax: masked columns get weight `ex(-inf) = 0`): numerator and denominator -/
+def maskedAttn (N : Nat) (ex : α → α) (mask : Nat → Bool) (score val : Nat → α) : α × α :=
+  (sumRange N (fun m => if mask m then ex (score m) * val m else 0), sumRange N (fun m => if mask m then ex (score m) else 0))
+
+/-- "softmax over ALL columns, then multiply by the mask" without renormalising: the denominator still runs over the padded
+columns -/
+def maskAfterSoftmax (N : Nat) (ex : α → α) (mask : Nat → Bool) (score val : Nat → α) : α × α :=
+  (sumRange N (fun m => if mask m then ex (score m) * val m else 0), sumRange N (fun m => ex (score m)))
+
+/-- `HetGNNLayer`'s attention over the operation columns, in the form the source uses (extracted:
+`Params.augHgnnMasksBeforeSoftmax`) -/
+def hgnnAttn (N : Nat) (ex : α → α) (mask : Nat → Bool) (score val : Nat → α) : α × α :=
+  if Params.augHgnnMasksBeforeSoftmax then maskedAttn N ex mask score val else maskAfterSoftmax N ex mask score val
+
+end padding
+
+/-! ### which coordinate keys an augmentation transforms (round 6) -/
+
+/-- a TensorDict's coordinate-bearing entries: key ↦ points -/
+abbrev CoordTd (P : Type) := String → Nat → P
+
+/-- `StateAugmentation(feats)`: only the keys in `feats` are transformed -/
+def augTd {P : Type} (feats : List String) (f : P → P) (td : CoordTd P) : CoordTd P :=
+  fun k i => if k ∈ feats then f (td k i) else td k i
+
+/-- the coordinate keys the augmentation of a model's `shared_step` sees: those of the RESET state when the step resets first
+and augments the reset td (`resetFirst`), those of the raw batch otherwise -/
+def stepAugKeys (resetFirst : Bool) (rawKeys resetKeys : List String) : List String :=
+  if resetFirst then resetKeys else rawKeys
+
 end Rl4co.Eval
